@@ -223,6 +223,8 @@ def _literal_elts(itsym, depth=0):
     if hasattr(itsym, '_elts'):
         return list(itsym._elts)
     if isinstance(itsym, ast.Name) and getattr(itsym, '_origin', None) is not None:
+        if isinstance(itsym._origin, ast.List) and not itsym._origin.elts:
+            return []           # a local list followed element by element that is (still) empty
         return _literal_elts(itsym._origin, depth + 1)
     if isinstance(itsym, ast.Call) and isinstance(itsym.func, ast.Name) and not itsym.keywords:
         if itsym.func.id == 'enumerate' and 1 <= len(itsym.args) <= 2:
@@ -261,6 +263,22 @@ def _never_none(sym):
         if isinstance(sym.func, ast.Name) and sym.func.id in _NEVER_NONE_FUNCS:
             return True
     return False
+
+
+def _canon_subscript(base, idx):
+    """Subscripts with a fixed meaning: m['name'] on a regex match object is m.group('name'); m.group('a', 'b')[k] is m.group(<k-th name>);
+    a constant index into a tuple / list display written out in full is that element."""
+    if isinstance(idx, ast.Constant) and isinstance(idx.value, (str, int)) and not isinstance(idx.value, bool) and isinstance(base, ast.Call) \
+            and isinstance(base.func, ast.Attribute) and base.func.attr in ('search', 'match', 'fullmatch') and len(base.args) >= 1 and not base.keywords:
+        return ast.Call(func=ast.Attribute(value=base, attr='group', ctx=ast.Load()), args=[idx], keywords=[])
+    if isinstance(idx, ast.Constant) and isinstance(idx.value, int) and not isinstance(idx.value, bool) and isinstance(base, ast.Call) \
+            and isinstance(base.func, ast.Attribute) and base.func.attr == 'group' and len(base.args) > 1 and not base.keywords \
+            and -len(base.args) <= idx.value < len(base.args):
+        return ast.Call(func=base.func, args=[base.args[idx.value]], keywords=[])
+    if isinstance(idx, ast.Constant) and isinstance(idx.value, int) and not isinstance(idx.value, bool) and isinstance(base, ast.Tuple) \
+            and not any(isinstance(x, ast.Starred) for x in base.elts) and -len(base.elts) <= idx.value < len(base.elts):
+        return base.elts[idx.value]
+    return None
 
 
 def _enumerate_parts(itsym):
@@ -446,6 +464,15 @@ class PathSim:
                     newv = ast.BinOp(left=cur, op=stmt.op, right=sym)
                     s2.events.append(Event('aug', stmt, f, text=norm(stmt), target=self._subst_target(stmt.target, s2, frame),
                                            value=sym, ep=s2.ep, loops=s2.loops, extra=type(stmt.op).__name__))
+                    if isinstance(stmt.target, ast.Name) and isinstance(stmt.op, ast.Add):
+                        held = s2.env.get((frame[1], stmt.target.id))
+                        more = _literal_elts(sym) if (isinstance(sym, (ast.List, ast.Tuple)) or hasattr(sym, '_elts')) else None
+                        if isinstance(held, ast.List) and not any(isinstance(x_, ast.Starred) for x_ in held.elts) and more is not None \
+                                and len(held.elts) + len(more) <= 24:
+                            # parts += [a, b] on a list followed element by element is extend: the local keeps denoting the grown display
+                            s2.env[(frame[1], stmt.target.id)] = ast.List(elts=list(held.elts) + list(more), ctx=ast.Load())
+                            out.append((s2, None))
+                            continue
                     out.extend(self.assign(stmt.target, newv, s2, frame, stmt, quiet=True))
             return out
         if isinstance(stmt, ast.Return):
@@ -892,7 +919,7 @@ class PathSim:
                 elif star and i > star[0]:
                     part = ast.Subscript(value=sym, slice=ast.Constant(value=-(len(t.elts) - i)), ctx=ast.Load())
                 else:
-                    part = ast.Subscript(value=sym, slice=ast.Constant(value=i), ctx=ast.Load())
+                    part = _canon_subscript(sym, ast.Constant(value=i)) or ast.Subscript(value=sym, slice=ast.Constant(value=i), ctx=ast.Load())
                 nrs = []
                 for s, sig in rs:
                     nrs.extend(self.assign(e, part, s, frame, stmt, quiet=True))
@@ -1020,12 +1047,12 @@ class PathSim:
                     out.extend(self.ev(e.orelse, s, frame))
             return out
         if isinstance(e, ast.BoolOp) and len(e.values) == 2 \
-                and (any(isinstance(x, ast.Call) for x in ast.walk(e.values[1])) or isinstance(e.values[0], (ast.ListComp, ast.Call))) \
+                and (any(isinstance(x, ast.Call) for x in ast.walk(e.values[1])) or isinstance(e.values[0], (ast.ListComp, ast.Call, ast.Name))) \
                 and not any(isinstance(x, (ast.Compare, ast.BoolOp)) or (isinstance(x, ast.UnaryOp) and isinstance(x.op, ast.Not)) for x in e.values) \
                 and not self._is_boolish(f, e.values[0]):
             # `a = X or Y()` / `X and Y()` used as a VALUE whose second operand is a computation: fork like the if-statement it abbreviates;
             # `[.. for .. if ..] or [default]`: the comprehension is true exactly when one of its iterations appended
-            second_is_call = any(isinstance(x, ast.Call) for x in ast.walk(e.values[1]))
+            second_is_call = any(isinstance(x, ast.Call) for x in ast.walk(e.values[1])) or isinstance(e.values[1], (ast.Tuple, ast.List))   # .. or a default display (to be unpacked)
             out = []
             n0 = len(st.events)
             for sym, s, sig in self.ev(e.values[0], st, frame):
@@ -1034,6 +1061,8 @@ class PathSim:
                     continue
                 if isinstance(sym, ast.Constant):
                     decided = [(bool(sym.value), s, None)]
+                elif _literal_elts(sym) is not None and (hasattr(sym, '_elts') or isinstance(sym, (ast.List, ast.Tuple, ast.Name))):
+                    decided = [(len(_literal_elts(sym)) > 0, s, None)]
                 elif isinstance(sym, ast.ListComp) and sym.generators[0].ifs and any(ev_.kind == 'loop-exit' for ev_ in s.events[n0:]):
                     napp = len(sym._elts) if hasattr(sym, '_elts') else sum(1 for ev_ in s.events[n0:] if ev_.kind == 'call' and ev_.ftext == '<listcomp>.append' and ev_.recv is sym)
                     decided = [(napp > 0, s, None)]
@@ -1051,10 +1080,15 @@ class PathSim:
                     else:
                         out.extend(self.ev(e.values[1], s2, frame))
             return out
+        if isinstance(e, ast.Call) and isinstance(e.func, ast.Name) and e.func.id == 'next' and len(e.args) == 2 and not e.keywords \
+                and isinstance(e.args[0], ast.GeneratorExp) and len(e.args[0].generators) == 1 and isinstance(e.args[0].generators[0].target, ast.Name) \
+                and not e.args[0].generators[0].is_async and self.repo.lookup(f.module, 'next') is None:
+            return self._ev_next_first(e, st, frame)
         if isinstance(e, ast.Call):
             return self.ev_call(e, st, frame)
-        if isinstance(e, ast.ListComp) and len(e.generators) == 1 and e.generators[0].ifs and isinstance(e.generators[0].target, ast.Name) \
-                and not e.generators[0].is_async:
+        if isinstance(e, ast.ListComp) and len(e.generators) == 1 and e.generators[0].ifs and not e.generators[0].is_async \
+                and (isinstance(e.generators[0].target, ast.Name) or (isinstance(e.generators[0].target, ast.Tuple)
+                                                                      and all(isinstance(x, ast.Name) for x in e.generators[0].target.elts))):
             return self._ev_filtered_comp(e, st, frame)
         if isinstance(e, (ast.Lambda, ast.ListComp, ast.SetComp, ast.DictComp, ast.GeneratorExp)):
             sym = self.subst(e, st, frame)
@@ -1076,6 +1110,23 @@ class PathSim:
                     out.append((None, s, sig))
                     continue
                 sym = ast.Attribute(value=b, attr=e.attr, ctx=ast.Load())
+                psite = self.cg.site_of(frame[0], e) if isinstance(getattr(e, 'ctx', None), ast.Load) else None
+                if psite is not None and psite.prop:
+                    # the load runs a @property getter: a call without arguments on the receiver
+                    targets = tuple(self.cg.targets(psite))
+                    g = targets[0] if len(targets) == 1 else None
+                    inl = g is not None and (g in self.inline or (self.auto_inline and is_new_function(g))) and frame[2] < self.inline_depth
+                    if not inl:
+                        s.ep += 1
+                        s.heap.clear()
+                    sym._ep = s.ep
+                    s.events.append(Event('call', e, frame[0], text=norm(sym), ftext=norm(sym), args=[], kwargs={}, recv=b,
+                                          targets=targets, ep=s.ep, loops=s.loops, site=psite, extra='property'))
+                    if inl:
+                        out.extend(self._inline(g, e, sym, b, [], {}, s, frame, psite))
+                    else:
+                        out.append((sym, s, None))
+                    continue
                 hv = s.heap.get(norm(sym))
                 if hv is not None and not _is_mutable_display(hv):
                     out.append((hv, s, None))
@@ -1114,12 +1165,30 @@ class PathSim:
                         if sg is not None:
                             out.append((None, s2, sg))
                         else:
+                            canon = _canon_subscript(b, i)
+                            if canon is not None:
+                                out.append((canon, s2, None))
+                                continue
                             sym = ast.Subscript(value=b, slice=i, ctx=ast.Load())
                             sym._ep = s2.ep
                             s2.events.append(Event('load-sub', e, f, text=norm(sym), recv=b, value=i, ep=s2.ep,
                                                    loops=s2.loops))
                             out.append((sym, s2, None))
             return out
+        if isinstance(e, ast.NamedExpr) and isinstance(e.target, ast.Name):
+            # (name := value): evaluate the value, bind the name, the expression is the value
+            out = []
+            for sym, s, sig in self.ev(e.value, st, frame):
+                if sig is not None:
+                    out.append((None, s, sig))
+                    continue
+                for s2, sg in self.assign(e.target, sym, s, frame, e, quiet=True):
+                    out.append((sym, s2, sg))
+            return out
+        if isinstance(e, ast.Call) and isinstance(e.func, ast.Name) and e.func.id == 'next' and 1 <= len(e.args) <= 2 and not e.keywords \
+                and isinstance(e.args[0], ast.GeneratorExp) and len(e.args[0].generators) == 1 and isinstance(e.args[0].generators[0].target, ast.Name) \
+                and self.repo.lookup(f.module, 'next') is None and len(e.args) == 2:
+            return self._ev_next_first(e, st, frame)
         # generic: evaluate children in order
         fields = []
         for fld, val in ast.iter_fields(e):
@@ -1411,6 +1480,30 @@ class PathSim:
                 else:
                     out.extend(self.cond(e.orelse, s, frame))
             return out
+        if isinstance(e, ast.Compare) and len(e.ops) == 1 and isinstance(e.ops[0], (ast.Eq, ast.NotEq)) and isinstance(e.left, ast.Tuple) \
+                and isinstance(e.comparators[0], ast.Tuple) and len(e.left.elts) == len(e.comparators[0].elts) and 1 < len(e.left.elts) <= 4 \
+                and not any(isinstance(x, ast.Starred) for x in e.left.elts + e.comparators[0].elts):
+            # (a, b) == (x, y)  is  a == x and b == y
+            parts = [ast.Compare(left=l_, ops=[ast.Eq()], comparators=[r_]) for l_, r_ in zip(e.left.elts, e.comparators[0].elts)]
+            res = self.cond(ast.BoolOp(op=ast.And(), values=parts), st, frame)
+            if isinstance(e.ops[0], ast.NotEq):
+                res = [(None if v is None else (not v), s_, sg_) for v, s_, sg_ in res]
+            return res
+        if isinstance(e, ast.Compare) and isinstance(e.ops[0], (ast.In, ast.NotIn)) and isinstance(e.comparators[0], (ast.Tuple, ast.List, ast.Set)) \
+                and 1 <= len(e.comparators[0].elts) <= 4 and not any(isinstance(x, ast.Starred) for x in e.comparators[0].elts) \
+                and (isinstance(e.left, ast.Constant) and e.left.value is None or any(isinstance(x, ast.Constant) and x.value is None for x in e.comparators[0].elts)):
+            # `x in (None, y)` / `None not in (a, b)`: membership in a written-out display involving None is a chain of identity / equality tests
+            parts = []
+            for x in e.comparators[0].elts:
+                is_none = (isinstance(x, ast.Constant) and x.value is None) or (isinstance(e.left, ast.Constant) and e.left.value is None)
+                if isinstance(e.left, ast.Constant) and e.left.value is None:
+                    parts.append(ast.Compare(left=x, ops=[ast.Is()], comparators=[ast.Constant(value=None)]))
+                else:
+                    parts.append(ast.Compare(left=e.left, ops=[ast.Is() if is_none else ast.Eq()], comparators=[x]))
+            res = self.cond(ast.BoolOp(op=ast.Or(), values=parts) if len(parts) > 1 else parts[0], st, frame)
+            if isinstance(e.ops[0], ast.NotIn):
+                res = [(None if v is None else (not v), s_, sg_) for v, s_, sg_ in res]
+            return res
         if isinstance(e, ast.Compare):
             out = []
             for l, s, sig in self.ev(e.left, st, frame):
@@ -1425,6 +1518,19 @@ class PathSim:
             return out
         if isinstance(e, ast.Constant):
             return [(bool(e.value), st, None)]
+        if isinstance(e, ast.Call) and isinstance(e.func, ast.Name) and e.func.id == 'isinstance' and len(e.args) == 2 and not e.keywords \
+                and self.repo.lookup(frame[0].module, 'isinstance') is None:
+            # isinstance(x, (A, B)) - the tuple written out or a module-level constant - is isinstance(x, A) or isinstance(x, B)
+            kinds = e.args[1]
+            if isinstance(kinds, (ast.Name, ast.Attribute)) and not (isinstance(kinds, ast.Name) and (frame[1], kinds.id) in st.env):
+                r_ = self.repo.resolve_expr_static(frame[0].module, kinds)
+                if r_ and r_[0] == 'var' and isinstance(r_[1], ast.Tuple):
+                    kinds = r_[1]
+            if isinstance(kinds, ast.Tuple) and 1 <= len(kinds.elts) <= 8 and not any(isinstance(x, (ast.Starred, ast.Tuple)) for x in kinds.elts):
+                parts = [ast.Call(func=e.func, args=[e.args[0], k_], keywords=[]) for k_ in kinds.elts]
+                for p_ in parts:
+                    p_.lineno, p_.col_offset = getattr(e, 'lineno', 0), getattr(e, 'col_offset', 0)
+                return self.cond(parts[0] if len(parts) == 1 else ast.BoolOp(op=ast.Or(), values=parts), st, frame)
         if isinstance(e, ast.Call) and isinstance(e.func, ast.Name) and e.func.id in ('any', 'all') and len(e.args) == 1 and not e.keywords \
                 and isinstance(e.args[0], (ast.GeneratorExp, ast.ListComp)) and len(e.args[0].generators) == 1 \
                 and isinstance(e.args[0].generators[0].target, ast.Name) and self.repo.lookup(frame[0].module, e.func.id) is None:
@@ -1437,6 +1543,8 @@ class PathSim:
             # a substituted local may itself be a boolean expression: evaluate structurally
             if isinstance(sym, ast.Constant):
                 out.append((bool(sym.value), s, None))
+            elif _literal_elts(sym) is not None and (hasattr(sym, '_elts') or isinstance(sym, (ast.List, ast.Tuple, ast.Name))):
+                out.append((len(_literal_elts(sym)) > 0, s, None))      # a list known element by element is true iff it has elements
             elif isinstance(sym, (ast.BoolOp, ast.Compare)) or (isinstance(sym, ast.UnaryOp) and isinstance(sym.op, ast.Not)):
                 out.extend(self._cond_sym(sym, s, frame, e))
             else:
@@ -1456,35 +1564,40 @@ class PathSim:
             loop._parent = getattr(e, '_parent', None)
             self._synth_loops[id(e)] = loop
         out = []
-        key = (frame[1], gen.target.id)
+        keys = [(frame[1], x.id) for x in ([gen.target] if isinstance(gen.target, ast.Name) else gen.target.elts)]
         for itsym, s0, sig in self.ev(gen.iter, st, frame):
             if sig is not None:
                 out.append((None, s0, sig))
                 continue
             base_loops = s0.loops
-            saved = s0.env.get(key)
+            saved = {k_: s0.env.get(k_) for k_ in keys}
             sym = self.subst(e, s0, frame)
             n_ev0 = len(s0.events)
+            lit = _literal_elts(itsym)
             pending = [(s0, 0)]
             while pending:
                 s, k = pending.pop()
-                s_exit = s.fork()
-                s_exit.loops = base_loops
-                if saved is None:
-                    s_exit.env.pop(key, None)
-                else:
-                    s_exit.env[key] = saved
-                s_exit.events.append(Event('loop-exit', loop, f, text='for-exit', extra=k, value=itsym, ep=s_exit.ep, loops=base_loops))
-                # on this path the comprehension's value is known element by element: what its iterations appended
-                res = clone_ast(sym)
-                res._elts = [ev_.args[0] for ev_ in s_exit.events[n_ev0:] if ev_.kind == 'call' and ev_.ftext == '<listcomp>.append' and ev_.recv is sym]
-                res._comp = sym
-                out.append((res, s_exit, None))
-                if k >= self.unroll:
+                if lit is None or k == len(lit):
+                    s_exit = s.fork()
+                    s_exit.loops = base_loops
+                    for k_ in keys:
+                        if saved[k_] is None:
+                            s_exit.env.pop(k_, None)
+                        else:
+                            s_exit.env[k_] = saved[k_]
+                    s_exit.events.append(Event('loop-exit', loop, f, text='for-exit', extra=k, value=itsym, ep=s_exit.ep, loops=base_loops))
+                    # on this path the comprehension's value is known element by element: what its iterations appended
+                    res = clone_ast(sym)
+                    res._elts = [ev_.args[0] for ev_ in s_exit.events[n_ev0:] if ev_.kind == 'call' and ev_.ftext == '<listcomp>.append' and ev_.recv is sym]
+                    res._comp = sym
+                    out.append((res, s_exit, None))
+                    if lit is not None:
+                        continue
+                if lit is None and k >= self.unroll:
                     continue
                 s.loops = base_loops + ((id(loop), k),)
-                elem = ast.Name(id='<elem%d of %s>' % (k, norm(itsym)), ctx=ast.Load())
-                s.env[key] = elem
+                elem = lit[k] if lit is not None else ast.Name(id='<elem%d of %s>' % (k, norm(itsym)), ctx=ast.Load())
+                self.assign(gen.target, elem, s, frame, loop, quiet=True)
                 s.events.append(Event('loop-iter', loop, f, text='for-iter', extra=k, value=itsym, ep=s.ep, loops=s.loops))
                 cur = [s]
                 for cnd in gen.ifs:
@@ -1508,6 +1621,71 @@ class PathSim:
                         pending.append((s2, k + 1))
         return out
 
+    def _ev_next_first(self, e, st, frame):
+        """next((ELT for x in X if COND), DEFAULT): the first element that satisfies COND, else DEFAULT - as the loop it abbreviates"""
+        f = frame[0]
+        comp = e.args[0]
+        gen = comp.generators[0]
+        loop = self._synth_loops.get(id(comp))
+        if loop is None:
+            loop = ast.For(target=gen.target, iter=gen.iter, body=[], orelse=[])
+            loop.lineno = getattr(e, 'lineno', 0)
+            loop.col_offset = getattr(e, 'col_offset', 0)
+            loop._parent = getattr(e, '_parent', None)
+            self._synth_loops[id(comp)] = loop
+        out = []
+        key = (frame[1], gen.target.id)
+        for itsym, s0, sig in self.ev(gen.iter, st, frame):
+            if sig is not None:
+                out.append((None, s0, sig))
+                continue
+            base_loops = s0.loops
+            saved = s0.env.get(key)
+            lit = _literal_elts(itsym)
+            pending = [(s0, 0)]
+            while pending:
+                s, k = pending.pop()
+                if lit is None or k == len(lit):
+                    s_exit = s.fork()
+                    s_exit.loops = base_loops
+                    if saved is None:
+                        s_exit.env.pop(key, None)
+                    else:
+                        s_exit.env[key] = saved
+                    s_exit.events.append(Event('loop-exit', loop, f, text='for-exit', extra=k, value=itsym, ep=s_exit.ep, loops=base_loops))
+                    out.extend(self.ev(e.args[1], s_exit, frame))
+                    if lit is not None:
+                        continue
+                if lit is None and k >= self.unroll:
+                    continue
+                s.loops = base_loops + ((id(loop), k),)
+                elem = lit[k] if lit is not None else ast.Name(id='<elem%d of %s>' % (k, norm(itsym)), ctx=ast.Load())
+                s.env[key] = elem
+                s.events.append(Event('loop-iter', loop, f, text='for-iter', extra=k, value=itsym, ep=s.ep, loops=s.loops))
+                cur = [s]
+                for cnd in gen.ifs:
+                    nxt = []
+                    for sx in cur:
+                        for v, s2, sg in self.cond(cnd, sx, frame):
+                            if sg is not None:
+                                out.append((None, s2, sg))
+                            elif v:
+                                nxt.append(s2)
+                            else:
+                                pending.append((s2, k + 1))
+                    cur = nxt
+                for sx in cur:
+                    for esym, s2, sg in self.ev(comp.elt, sx, frame):
+                        s2.loops = base_loops
+                        if sg is None:
+                            s2.events.append(Event('loop-break', loop, f, text='for-break', extra=k, ep=s2.ep, loops=base_loops))
+                            if saved is None:
+                                s2.env.pop(key, None)
+                            else:
+                                s2.env[key] = saved
+                        out.append((esym if sg is None else None, s2, sg))
+        return out
+
     def _cond_any_all(self, e, st, frame, is_any):
         """any(P(x) for x in X) / all(...) as the loop it abbreviates (same events as a for loop with an early exit)."""
         f = frame[0]
@@ -1529,21 +1707,25 @@ class PathSim:
                 continue
             base_loops = s0.loops
             saved = s0.env.get(key)
+            lit = _literal_elts(itsym)      # a written-out display (or a list known element by element): exactly these elements
             pending = [(s0, 0)]
             while pending:
                 s, k = pending.pop()
-                s_exit = s.fork()
-                s_exit.loops = base_loops
-                if saved is None:
-                    s_exit.env.pop(key, None)
-                else:
-                    s_exit.env[key] = saved
-                s_exit.events.append(Event('loop-exit', loop, f, text='for-exit', extra=k, value=itsym, ep=s_exit.ep, loops=base_loops))
-                out.append((not is_any, s_exit, None))
-                if k >= self.unroll:
+                if lit is None or k == len(lit):
+                    s_exit = s.fork()
+                    s_exit.loops = base_loops
+                    if saved is None:
+                        s_exit.env.pop(key, None)
+                    else:
+                        s_exit.env[key] = saved
+                    s_exit.events.append(Event('loop-exit', loop, f, text='for-exit', extra=k, value=itsym, ep=s_exit.ep, loops=base_loops))
+                    out.append((not is_any, s_exit, None))
+                    if lit is not None:
+                        continue
+                if lit is None and k >= self.unroll:
                     continue
                 s.loops = base_loops + ((id(loop), k),)
-                elem = ast.Name(id='<elem%d of %s>' % (k, norm(itsym)), ctx=ast.Load())
+                elem = lit[k] if lit is not None else ast.Name(id='<elem%d of %s>' % (k, norm(itsym)), ctx=ast.Load())
                 s.env[key] = elem
                 s.events.append(Event('loop-iter', loop, f, text='for-iter', extra=k, value=itsym, ep=s.ep, loops=s.loops))
                 cur = [s]
@@ -1820,6 +2002,8 @@ def deep_ast(sym, concat=False):
     class T(ast.NodeTransformer):
         def visit_Name(self, x):
             o = getattr(x, '_origin', None)
+            if o is not None and hasattr(o, '_elts'):
+                return self.visit(ast.List(elts=[clone_ast(y) for y in o._elts], ctx=ast.Load()))      # a comprehension whose elements are known on this path
             return self.visit(clone_ast(o)) if o is not None else x
 
         def visit_Call(self, x):
